@@ -484,3 +484,16 @@ CHECKS['C09']['jobs'].append(dict(name='older_mtime', harness='c09_depslog.cc', 
 CHECKS['C20']['jobs'] += _real_runner(_mode_jobs('MODE_STATUS', [5], extra=['LONG_OUTPUT'], suffix='_long', reach=('success', 'output-shown'), bounds='one invocation from the empty tree, -j in {1,2,3}, each command prints or not; what a command prints is longer (4.2 KiB) than one read from its pipe, or short; written in two parts or all at once when it exits; every completion order'))
 for _j in CHECKS['C06']['jobs']:
     if _j['name'] == 'pools_procs': _j['reach'] = list(_j['reach']) + ['coalesced-sigchld']; _j['quick'] = dict(_j['quick'], bounds=_j['quick']['bounds'] + '; two commands may exit before the SIGCHLD handler runs once'); _j['thorough'] = dict(_j['thorough'], bounds=_j['thorough']['bounds'] + '; two commands may exit before the SIGCHLD handler runs once')
+
+# ---- level texts for the third session's jobs
+CHECKS['C06']['level_text'] += ' Further jobs: a statement in a depth-limited pool that is ready at the start and is named as an input by a dyndep file loaded mid-build (each command at most once); a stat() I/O error after the first command start as a symbolic fault with a jobserver pool (every token returned on that path too); in the *_procs jobs two commands may exit before the SIGCHLD handler runs once (siginfo of the first).'
+CHECKS['C04']['level_text'] += ' One shape contains a tidy-up command that prunes empty directories (the depfile directory is empty again once ninja has read and removed a deps=gcc depfile): the directories of outputs and depfile must exist at every later command start all the same.'
+CHECKS['C01']['level_text'] += ' One shape puts a phony alias over a restat output and a source, with consumers behind the alias through an implicit and through an order-only input.'
+CHECKS['C03']['level_text'] += ' The same phony-over-restat-and-source shape is checked for minimality.'
+CHECKS['C07']['level_text'] += ' In the *_procs interrupt jobs a signalled command may die at once or only while ninja waits for it (touching its outputs until then): ninja must have reaped every child before it inspects and removes outputs.'
+CHECKS['C08']['level_text'] += ' A further job writes records whose output names have 60 different lengths up to 64 KiB (clustered around 256, 512, 1024, 2048, 4096) through the real writer and reads them back, then appends, recompacts or restats and reads again.'
+CHECKS['C09']['level_text'] += ' One sequence records an output again with the same dependencies and an older mtime (an output restored from a cache): the mtime returned must be the one recorded last.'
+CHECKS['C11']['level_text'] += ' One shape lets the dyndep file add as an implicit input a file the statement already lists as an order-only input.'
+CHECKS['C13']['level_text'] += ' A structure-aware job evaluates every variable of a rule whose description, rspfile and rspfile_content each consist of two references chosen among those variables and a literal (all 4^6 reference graphs): evaluation ends, or ends in the documented fatal "cycle in rule variables", never in unbounded recursion.'
+CHECKS['C16']['level_text'] += ' One job uses $in on the command line and $in_newline in the response file of the same statement (and $out in the description), evaluated in every order and repeatedly, each against the sh model, so that what one expansion leaves behind cannot leak into another.'
+CHECKS['C20']['level_text'] += ' One *_procs job lets commands print more (4.2 KiB) than ninja reads from a pipe at once, in two parts or all at once together with the hang-up.'
